@@ -1227,6 +1227,32 @@ func init() {
 	add(prod{ext: true, name: "partial-generic-pkg-arg", tiny: true, app: is("int"), mk: func(g *Gen, t Type, env Env2, fuel, pos int) Expr {
 		return call("slice.Length", call("slice.Map", call("frt.Sprintf1", StrLit{"<%d>"}), g.Gen("[]int", env, fuel-1, PosExpr)))
 	}})
+	// 47 slice values persist: several values derived from one base (a Map result has spare capacity) - each
+	// keeps its own contents whatever is derived from the base afterwards (after seed C01i)
+	add(prod{ext: true, name: "slice-values-persist", block: true, app: any_, mk: func(g *Gen, t Type, env Env2, fuel, pos int) Expr {
+		f := g.split(fuel-1, 2)
+		bs, pa, pb, pc := g.freshName("bs"), g.freshName("pa"), g.freshName("pb"), g.freshName("pc")
+		var base Expr
+		switch g.C.Choose(3) {
+		case 0:
+			base = call("slice.Map", Var{"inc"}, SliceLit{[]Expr{IntLit{1}, g.Gen("int", env, f[0], PosExpr), IntLit{3}}})
+		case 1:
+			base = call("slice.PopLast", SliceLit{[]Expr{IntLit{2}, g.Gen("int", env, f[0], PosExpr), IntLit{4}, IntLit{9}}})
+		case 2:
+			base = call("slice.PushLast", IntLit{4}, SliceLit{[]Expr{IntLit{2}, g.Gen("int", env, f[0], PosExpr)}})
+		}
+		mul := func(a Expr, k int64) Expr { return BinOp{"*", a, IntLit{k}} }
+		sum := BinOp{"+", BinOp{"+", BinOp{"+", mul(call("slice.Item", IntLit{1}, Var{pa}), 1000), mul(call("slice.Item", IntLit{1}, Var{pb}), 100)}, mul(call("slice.Last", Var{bs}), 10)}, BinOp{"+", call("slice.Last", Var{pa}), call("slice.Head", Var{pc})}}
+		body := g.blk(t, env, f[1])
+		stmts := []Stmt{
+			Let{bs, base},
+			Let{pa, call("slice.PushHead", IntLit{10}, Var{bs})},
+			Let{pb, call("slice.PushHead", IntLit{20}, Var{bs})},
+			Let{pc, call("slice.PushLast", IntLit{30}, call("slice.PopLast", Var{bs}))},
+			ExprStmt{call("say", call("frt.Sprintf1", StrLit{"%d"}, sum))},
+		}
+		return &Block{Stmts: append(stmts, body.Stmts...), Final: body.Final}
+	}})
 	// 25 sequencing
 	add(prod{name: "seq", rep: true, tiny: true, block: true, app: any_, mk: func(g *Gen, t Type, env Env2, fuel, pos int) Expr {
 		f := g.split(fuel-1, 2)
